@@ -1,5 +1,6 @@
 import Lean.Data.Json
 import OapiVerif.Model.Prune
+import OapiVerif.Model.Filter
 /-!
 Line-protocol driver: one JSON object per line in, one per line out.
 `{"fn": <name>, ...}` ↦ `{"ok": <result>}` or `{"err": "bad-op"}` (never a default).
@@ -24,9 +25,19 @@ def prune (j : Json) : Except String Json := do
   let d := Prune.prune ⟨roots, comps⟩
   pure (jstrs (d.comps.map (·.ref)))
 
+def filter (j : Json) : Except String Json := do
+  let c ← j.getObjVal? "cfg"
+  let cfg : Filter.Cfg := ⟨← strs c "it", ← strs c "et", ← strs c "ii", ← strs c "ei"⟩
+  let os ← j.getObjValAs? (Array Json) "ops"
+  let ops ← os.toList.mapM fun o => do
+    pure (⟨← o.getObjValAs? String "path", ← o.getObjValAs? String "method", ← strs o "tags",
+           ← o.getObjValAs? String "id", []⟩ : Filter.Op)
+  pure (jstrs ((Filter.filterDoc cfg ops).map (fun o => o.method ++ " " ++ o.path)))
+
 def dispatch (fn : String) (j : Json) : Except String Json :=
   match fn with
   | "prune" => prune j
+  | "filter" => filter j
   | _ => .error "bad-op"
 
 def handle (line : String) : String :=
